@@ -374,9 +374,24 @@ def check_clear(program, rep):
                 if 'parent' not in st_ or 'key' not in st_:
                     flag(kind, f'a child ({x}) of the cleared map keeps its '
                          'parent / key')
-                elif first_drop is not None and max(st_.values()) > first_drop:
-                    flag(kind, 'the containers are dropped before the '
-                         'back-links of the children are reset')
+                else:
+                    # the child must have been drawn from its container
+                    # before that container was emptied
+                    from rules.lifecycle import unwrap_iter as _ui
+                    own = norm(_ui(it.sym.node)[0])
+                    drawn = next(i_ for i_, e_ in enumerate(tr) if e_ is it)
+                    dropped_at = [i_ for i_, e_ in enumerate(tr) if (
+                        e_.kind == 'call' and isinstance(
+                            e_.sym.node, ast.Call) and norm(
+                                e_.sym.node.func) in (
+                                    f'{own}.clear', 'self.handles.clear'
+                                    if kind == 'handles' else f'{own}.clear'))
+                        or (e_.kind == 'store' and e_.target is not None
+                            and e_.target.text == ('self.handles' if kind
+                                                   == 'handles' else own))]
+                    if dropped_at and dropped_at[0] < drawn:
+                        flag(kind, 'the containers are dropped before the '
+                             'back-links of the children are reset')
         all_layers = drops['rebind'] or (layers and layers
                                          <= drops['layers']) or (
             drops['first_layer'] and drops['rest'])
